@@ -35,6 +35,10 @@ pub struct Profile {
     /// single-key tables in the last level (writes, flush, major compaction with target size 1),
     /// so that later partial merges meet blob files shared with tables outside the compaction
     pub shared_blob_prelude: bool,
+    /// a quarter of the runs start by writing a few hundred small keys in one batch, so that
+    /// data blocks with hundreds of restart intervals / large hash indexes / multi-block
+    /// filters exist (the usual universe of <= 40 keys never fills a 4 KiB block)
+    pub bulk_prelude: bool,
 }
 
 pub const W_WRITE: usize = 0;
@@ -83,6 +87,7 @@ impl Profile {
             blob_ingest: false,
             wild_weak_deletes: false,
             shared_blob_prelude: false,
+            bulk_prelude: false,
         }
     }
 }
@@ -154,6 +159,16 @@ pub struct GenState {
     pub next_value_id: u64,
     pub disc: Discipline,
     pub fifo_counter: u64,
+    /// FIFO workloads insert strictly increasing or strictly decreasing keys (both documented)
+    pub fifo_descending: bool,
+}
+
+pub fn fifo_key(i: u64, descending: bool) -> Vec<u8> {
+    if descending {
+        format!("f{:06}", 999_999 - i).into_bytes()
+    } else {
+        format!("f{i:06}").into_bytes()
+    }
 }
 
 pub fn gen_keys(r: &mut Rng, n: usize) -> Vec<Bytes> {
@@ -236,7 +251,7 @@ pub fn gen_cfg(r: &mut Rng, p: &Profile) -> CfgSpec {
         } else {
             None
         },
-        block_size: *r.pick(&[64u32, 128, 256, 1024, 4096]),
+        block_size: *r.pick(&[64u32, 128, 256, 1024, 4096, 16384]),
         restart_interval: *r.pick(&[1u8, 2, 3, 16]),
         hash_ratio: *r.pick(&[0.0f32, 0.0, 0.75, 1.33, 8.0]),
         index_part: pol(r),
@@ -466,7 +481,7 @@ pub fn gen_op(
                 let v = gen_value(st, r, cfg);
                 Op::Write {
                     items: vec![WriteItem {
-                        k: Bytes(format!("f{:06}", st.fifo_counter).into_bytes()),
+                        k: Bytes(fifo_key(st.fifo_counter, st.fifo_descending)),
                         kind: WKind::Put,
                         v,
                     }],
@@ -617,6 +632,7 @@ pub fn gen_run(property: &str, seed: u64, p: &Profile) -> RunSpec {
         next_value_id: 0,
         disc: Discipline::default(),
         fifo_counter: 0,
+        fifo_descending: p.fifo && r.chance(1, 2),
     };
     let mut ops = Vec::with_capacity(n_ops);
     if p.shared_blob_prelude && cfg.blob.is_some() && r.chance(1, 4) {
@@ -639,6 +655,23 @@ pub fn gen_run(property: &str, seed: u64, p: &Profile) -> RunSpec {
         ops.push(Op::FlushActive { wm: Wm::Zero });
         ops.push(Op::Major { target: 1, wm: Wm::Zero });
     }
+    let mut bulk_keys: Vec<Bytes> = Vec::new();
+    if p.bulk_prelude && r.chance(1, 4) {
+        let n = 260 + r.usize(200);
+        let mut items = Vec::with_capacity(n);
+        for i in 0..n {
+            let k = Bytes(format!("b{i:04}").into_bytes());
+            st.next_value_id += 1;
+            items.push(WriteItem {
+                k: k.clone(),
+                kind: WKind::Put,
+                v: Bytes(format!("v{}", st.next_value_id).into_bytes()),
+            });
+            bulk_keys.push(k);
+        }
+        ops.push(Op::Write { items });
+        ops.push(Op::FlushActive { wm: Wm::Zero });
+    }
     for _ in 0..n_ops {
         let op = gen_op(&mut st, &mut r, &cfg, &keys, &once, p, &weights);
         st.disc.on_op(&op);
@@ -646,13 +679,15 @@ pub fn gen_run(property: &str, seed: u64, p: &Profile) -> RunSpec {
     }
     let mut all_keys = keys;
     all_keys.extend(once);
+    all_keys.extend(bulk_keys);
     if p.wild_weak_deletes {
         all_keys.extend((0..4).map(|i| Bytes(format!("x~{i}").into_bytes())));
     }
     if p.fifo {
         all_keys = (1..=st.fifo_counter)
-            .map(|i| Bytes(format!("f{i:06}").into_bytes()))
+            .map(|i| Bytes(fifo_key(i, st.fifo_descending)))
             .collect();
+        all_keys.sort();
     }
     RunSpec {
         property: property.to_string(),
